@@ -195,6 +195,7 @@ type constEnv struct {
 	atEOF    bool
 	bind     map[ssa.Value]constant.Value
 	depth    int
+	visiting map[*ssa.Phi]bool // phis under evaluation (a loop phi reaches itself through its back edge)
 }
 
 func (e *constEnv) eval(v ssa.Value) (constant.Value, bool) {
@@ -295,6 +296,14 @@ func (e *constEnv) eval(v ssa.Value) (constant.Value, bool) {
 		}
 	case *ssa.Phi:
 		// short-circuit booleans: all known edges agree
+		if e.visiting[x] {
+			return nil, false
+		}
+		if e.visiting == nil {
+			e.visiting = map[*ssa.Phi]bool{}
+		}
+		e.visiting[x] = true
+		defer delete(e.visiting, x)
 		var res constant.Value
 		for _, ed := range x.Edges {
 			c, ok := e.eval(ed)
